@@ -39,6 +39,11 @@ CLAIMS = {
             'edge-dominated by the canonical-prefix test on the parent of the filtered path, callers pass a canonicalized directory and reuse the vetted '
             'path, and every filesystem-mutating call of the crate is classified (a sink fed by a member name outside create_file is a violation). '
             'Symlink races and extracted content are not decided.'),
+    'C06': (TECH_SHAPE, '§4 C06',
+            'Decides that every shape and constant of format v1 that the code fixes at compile time equals the published one on both the writing and the '
+            'reading side (constants, block tags, serialised struct layouts, per-arm codec operation sequences with the field each carries, endianness '
+            'and bincode options, nonce layout and counter step, layer order, HKDF/key-wrap parameters, cipher core types), so a symmetric change is '
+            'caught although it round-trips. Does not decide interoperability with an independent decoder nor the GCM numerics (third sentence of C06).'),
 }
 
 NOT_APPLICABLE = {
